@@ -138,6 +138,15 @@ Definition dispatch (fn : Z) (args : list Z) : list Z :=
     let k1 := ((h1 * 60 + m1) * 60 + s1) * 1000000 + us1 in
     let k2 := ((h2 * 60 + m2) * 60 + s2) * 1000000 + us2 in
     0 :: date_ops k1 k2 ++ [0; snd (pd_time_sub h1 m1 s1 us1 h2 m2 s2 us2)]
+  | 13 (* dt_str *), _ =>
+    match parse_val 1 args with
+    | Some (x, []) =>
+      match std_lookup "DateTime" "__str__", std_lookup "DateTime" "isoformat", std_lookup "DateTime" "__format__" with
+      | Some (0, _), Some (1, _), Some (0, _) => 0 :: pd_str x ++ [-1] ++ native_isoformat 84 x ++ [-1] ++ pd_for_json x ++ [-1] ++ pd_format_empty x
+      | _, _, _ => [-2]
+      end
+    | _ => [9]
+    end
   | 12 (* std_entry *), [i] =>
     match nth_error std_table (Z.to_nat i) with
     | Some (_, _, k, o) => [0; k; owner_code o]
